@@ -88,8 +88,8 @@ func dbProgStr(init int, ops []dbOp) string {
 
 var dbKeys = [][]byte{[]byte("a"), []byte("b"), []byte("c"), {0, 0, 0, 3}}
 var dbKeyNames = []string{"a", "b", "c", "L3"} // L3 = a key of the legacy fixture tables
-var dbVals = [][]byte{[]byte("x"), incompressible(300, 21), incompressible(50, 22)}
-var dbValNames = []string{"x", "Y300", "Z50"}
+var dbVals = [][]byte{[]byte("x"), incompressible(300, 21), incompressible(50, 22), incompressible(300, 23)}
+var dbValNames = []string{"x", "Y300", "Z50", "W300"}
 
 const churnN = 400
 
